@@ -8,7 +8,7 @@
 From Coq Require Import List NArith Bool.
 From PV Require Import Base.Base64.
 Import ListNotations.
-Open Scope N_scope.
+Local Open Scope N_scope.
 
 (* a replacement step: (from, Some to) = replace, (from, None) = delete *)
 Definition chain := list (N * option N).
